@@ -114,6 +114,154 @@ fn sched_cases(rng: &mut Rng, w: &mut CaseWriter, pid: u64, name: &str, m: Modul
     }
 }
 
+// ---------------------------------------------------------------------------------------------
+// allocation-point segments: ties VmAllocPoints.alloc_points to the crate (see coq/theories/C02Check.v)
+
+thread_local! {
+    /// the allocation calls (kind, size) seen between two marks
+    static SEGMENTS: std::cell::RefCell<Vec<Vec<(u64, u64)>>> = const { std::cell::RefCell::new(vec![]) };
+}
+
+/// the calls of CaoLangAllocator::alloc since the last mark, classified from their layout alone:
+/// 0 = AObject (an object header), 1 = ASecond (a character buffer: Layout::array::<char>, alignment 4; or a hash part of capacity 8,
+/// which only init_table creates), 2 = AGrow (a hash part of a larger capacity)
+fn close_segment() {
+    let [(hs, ha), (vs, _)] = vh::layouts();
+    let cap8 = 8 * (8 + 2 * vs);
+    let mut seg = vec![];
+    for e in vh::take_events() {
+        if let vh::AllocEvent::AllocBegin { size, align } = e {
+            let kind = if size == hs && align == ha { 0 } else if align == std::mem::align_of::<char>() || size == cap8 { 1 } else { 2 };
+            seg.push((kind, size as u64));
+        }
+    }
+    SEGMENTS.with(|s| s.borrow_mut().push(seg));
+}
+
+/// the mark: the menu native `log1` of Vm.v (one argument, returns nil, allocates nothing)
+fn mark_native(_vm: &mut Vm<()>, _v: Value) -> Result<Value, ExecutionErrorPayload> {
+    close_segment();
+    Ok(Value::Nil)
+}
+
+fn mk(k: i64) -> Card {
+    Card::call_native("log1", vec![Card::scalar_int(k)])
+}
+
+/// (name, module, one-new-key-per-segment?): small straight-line programs, a mark between the instructions of interest
+fn segment_programs() -> Vec<(&'static str, Module, bool)> {
+    use progs::{append, closure, f, fa, module, table};
+    let rd = |n: &str| Card::read_var(n);
+    let int = Card::scalar_int;
+    let st = |s: &str| Card::string_card(s);
+    let mut v: Vec<(&'static str, Module, bool)> = vec![];
+    // StringLiteral, InitTable, SetProperty with a fresh and with an existing (equal, other object) key
+    v.push(("strings_tables", module(vec![("main", f(vec![
+        mk(0), Card::set_var("s", st("abc")),
+        mk(1), Card::set_var("e", st("")),
+        mk(2), Card::set_var("t", table()),
+        mk(3), Card::set_property(int(1), rd("t"), st("k1")),
+        mk(4), Card::set_property(int(2), rd("t"), st("k1")),
+        mk(5), Card::set_property(st("value"), rd("t"), int(7)),
+        mk(6), Card::set_property(rd("s"), rd("t"), rd("s")),
+        mk(7), Card::set_global_var("g", rd("t")),
+    ]))]), false));
+    // SetProperty with 14 fresh integer keys: the hash part grows at the 6th, 9th, 13th entry
+    let mut cards = vec![Card::set_var("t", table()), mk(0)];
+    for i in 1..=14 { cards.push(Card::set_property(int(i * 10), rd("t"), int(i))); cards.push(mk(i)); }
+    cards.push(Card::set_global_var("g", rd("t")));
+    v.push(("grow_set_property", module(vec![("main", f(cards))]), true));
+    // the same keys again: nothing grows, nothing is allocated
+    let mut cards = vec![Card::set_var("t", table()), mk(0)];
+    for i in 1..=7 { cards.push(Card::set_property(int(i), rd("t"), int(i))); cards.push(mk(i)); }
+    for i in 1..=7 { cards.push(Card::set_property(int(-i), rd("t"), int(i))); cards.push(mk(10 + i)); }
+    v.push(("overwrite_existing", module(vec![("main", f(cards))]), false));
+    // AppendTable 14 times
+    let mut cards = vec![Card::set_var("t", table()), mk(0)];
+    for i in 1..=14 { cards.push(append(int(i), rd("t"))); cards.push(mk(i)); }
+    v.push(("grow_append", module(vec![("main", f(cards))]), true));
+    // string keys: every SetProperty is preceded by the StringLiteral of its key
+    let mut cards = vec![Card::set_var("t", table()), mk(0)];
+    for i in 1..=10 { cards.push(Card::set_property(int(i), rd("t"), st(&format!("key{}", i)))); cards.push(mk(i)); }
+    v.push(("grow_string_keys", module(vec![("main", f(cards))]), false));
+    // NthRow (Get) inside and past the end, and ForEach over a table (the mark is called in the body)
+    v.push(("nth_row_for_each", module(vec![("main", f(vec![
+        Card::set_var("t", table()),
+        append(st("a"), rd("t")), append(int(2), rd("t")), append(table(), rd("t")),
+        mk(0), Card::set_var("r0", Card::from(CardBody::Get(Box::new([rd("t"), int(0)])))),
+        mk(1), Card::set_var("r2", Card::from(CardBody::Get(Box::new([rd("t"), int(2)])))),
+        mk(2), Card::set_var("r9", Card::from(CardBody::Get(Box::new([rd("t"), int(9)])))),
+        mk(3),
+        Card::from(progs::ForEachCard::new(rd("t"), Some("k"), Some("x"), Card::composite_card("fe", vec![mk(10), Card::set_var("tmp", st("in the loop"))]))),
+        mk(4),
+    ]))]), false));
+    // Closure + RegisterUpvalue: first capture of a local (closure + upvalue), second capture of the same local
+    // (closure only), two locals, no capture; FunctionPointer, NativeFunctionPointer
+    v.push(("closures_function_values", module(vec![
+        ("foo", fa(&["a"], vec![Card::return_card(rd("a"))])),
+        ("main", f(vec![
+            Card::set_var("x", int(5)), Card::set_var("y", st("why")),
+            mk(0), Card::set_var("c1", closure(vec![Card::set_global_var("g1", rd("x"))])),
+            mk(1), Card::set_var("c2", closure(vec![Card::set_global_var("g2", rd("x"))])),
+            mk(2), Card::set_var("c3", closure(vec![Card::set_global_var("g3", rd("x")), Card::set_global_var("g4", rd("y"))])),
+            mk(3), Card::set_var("c4", closure(vec![Card::set_global_var("g5", int(1))])),
+            mk(4), Card::set_var("fp", Card::function_value("foo")),
+            mk(5), Card::set_var("np", Card::from(CardBody::NativeFunction("log1".to_string()))),
+            mk(6), Card::set_var("np2", Card::from(CardBody::NativeFunction("__to_array".to_string()))),
+            mk(7),
+        ])),
+    ]), false));
+    // __to_array: as a native call and through a native function value; 7 entries (one growth of the copy), 3, 0
+    let mut cards = vec![Card::set_var("t", table()), Card::set_var("u", table()), Card::set_var("e", table())];
+    for i in 1..=7 { cards.push(Card::set_property(int(i), rd("t"), st(&format!("k{}", i)))); }
+    for i in 1..=3 { cards.push(append(int(i), rd("u"))); }
+    cards.extend(vec![
+        mk(0), Card::set_var("a1", Card::call_native("__to_array", vec![rd("t")])),
+        mk(1), Card::set_var("a2", Card::call_native("__to_array", vec![rd("u")])),
+        mk(2), Card::set_var("a3", Card::call_native("__to_array", vec![rd("e")])),
+        mk(3), Card::set_var("a4", Card::dynamic_call(Card::from(CardBody::NativeFunction("__to_array".to_string())), vec![rd("t")])),
+        mk(4), Card::set_global_var("g", rd("a1")),
+    ]);
+    v.push(("to_array", module(vec![("main", f(cards))]), false));
+    v
+}
+
+/// one AllocSegCase per program (plus a GrowCase where every segment inserts one new key into one table)
+fn alloc_segments(w: &mut CaseWriter) {
+    for (name, m, one_key) in segment_programs() {
+        out::describe_current(&format!("C02 allocation segments of program {}", name));
+        let program = compile(m, CompileOptions::new()).unwrap_or_else(|e| panic!("segment program {} does not compile: {:?}", name, e));
+        vh::quarantine(false);
+        vh::audit_on_gc(false);
+        vh::force_gc_at(None);
+        let budget = 4000u64;
+        let mut vm = Vm::new(()).unwrap().with_max_iter(budget);
+        vm.runtime_data.set_memory_limit(1 << 26);
+        vm.register_native_function("log1", cao_lang::prelude::into_f1(mark_native)).unwrap();
+        SEGMENTS.with(|s| s.borrow_mut().clear());
+        vh::record_events(true);
+        let _ = vh::take_events();
+        let r = vm.run(&program);
+        close_segment();
+        vh::record_events(false);
+        let segs: Vec<Vec<(u64, u64)>> = SEGMENTS.with(|s| s.borrow_mut().drain(..).collect());
+        if let Err(e) = &r { panic!("segment program {} fails: {:?}", name, e.payload); }
+        let seg_term = |s: &Vec<(u64, u64)>| out::list(s.iter().map(|(k, sz)| format!("({}, {})", out::n(*k), out::n(*sz))));
+        let total: usize = segs.iter().map(|s| s.len()).sum();
+        w.count("alloc_points.segments");
+        w.count(&format!("alloc_points.prog={}", name));
+        for s in &segs { for (k, _) in s { w.count(["alloc_points.observed.AObject", "alloc_points.observed.ASecond", "alloc_points.observed.AGrow"][*k as usize]); } }
+        let id = w.push(format!("AllocSegCase {} {} {}", crate::vmrun::program_term(&program).term.replacen("(mkProgram", "(approg", 1), out::n(budget), out::list(segs.iter().map(seg_term))), total > 0);
+        w.note(id, format!("allocation segments of program {}: {:?}", name, segs));
+        if one_key {
+            // segment 0 = before the first mark (InitTable), the last segment = after the last mark
+            let entries = &segs[1..segs.len() - 1];
+            w.count("alloc_points.grow");
+            w.push(format!("GrowCase {}", out::list(entries.iter().map(seg_term))), true);
+        }
+    }
+}
+
 pub fn gen(a: &Args) {
     let mut rng = Rng::new(a.seed);
     let mut w = CaseWriter::new(&a.out, "C02Check", 30);
@@ -131,5 +279,7 @@ pub fn gen(a: &Args) {
             if w.len() >= a.n { break 'outer; }
         }
     }
+    // after the schedule cases (their ids and contents do not depend on this stream)
+    alloc_segments(&mut w);
     w.finish(serde_json::json!({}));
 }
